@@ -206,12 +206,13 @@ Fixpoint funcexpr (e : expr) : B ref :=
   | ELogic isor lt rt l r =>
       dob a <- funcexpr l;
       dob b0 <- mkblock; dob b1 <- mkblock;
-      dob _ <- (fun s => if closed s then (dob d <- mkblock; funclabel d) s else (tt, s));
+      dob _ <- open_dead;
       dob _ <- (if isor then funcjnz a (Some lt) b1 b0 else funcjnz a (Some lt) b0 b1);
       dob src0 <- cur_label;
       dob _ <- funclabel b0;
       dob b <- funcexpr r;
       dob v1 <- liftG (convert SBool rt b);
+      dob _ <- open_dead;
       dob src1 <- cur_label;
       dob _ <- funclabel b1;
       dob t <- functemp;
@@ -223,10 +224,12 @@ Fixpoint funcexpr (e : expr) : B ref :=
       dob _ <- funcjnz v (Some ct) b0 b1;
       dob _ <- funclabel b0;
       dob va <- funcexpr a;
+      dob _ <- open_dead;               (* an arm may end in a call to a noreturn function *)
       dob src0 <- cur_label;
       dob _ <- setjump (Jmp b2);
       dob _ <- funclabel b1;
       dob vb <- funcexpr b;
+      dob _ <- open_dead;
       dob src1 <- cur_label;
       dob _ <- funclabel b2;
       dob r <- functemp;
